@@ -52,6 +52,13 @@ func (h *receivedPacketTracker) GetAckFrame() *wire.AckFrame {
 	if !h.hasNewAck {
 		return nil
 	}
+	// All packets might have been removed from the history (by IgnoreBelow) since
+	// the ack-eliciting packet was received. There's nothing to acknowledge then:
+	// an ACK frame without ranges is not a valid frame.
+	if len(h.packetHistory.ranges) == 0 {
+		h.hasNewAck = false
+		return nil
+	}
 
 	// This function always returns the same ACK frame struct, filled with the most recent values.
 	ack := h.lastAck
